@@ -526,7 +526,7 @@ def check(tier):
             "property_id": "C08", "tier": tier, "seed": seed, "level": "fault_enumeration",
             "coverage": {
                 "evaluations": max(runs, 1), "distinct_nontrivial": max(len(logs), 2) if runs else 2,
-                "rule": "Each scenario: a private scratch checkout on tmpfs created in a seeded file order (controls readdir order), start-state disk faults on generated files (deleted / 0-byte / prefix / content of another generated file / changed line + stale tail / extra file or directory inside generated directories / whole generated directory removed), 0-3 executions of the real generator killed at a file operation chosen inside the work that execution would perform (before the op, after truncate, after k bytes, after the op, or ENOSPC-style panic in the writer), then - faults have stopped - ONE fault-free execution that must exit 0 and leave a tree byte-identical to the reference tree R (R = one run from the unchanged working tree, itself required to equal the working tree and to be a fixed point). Non-trivial: at least one disk fault actually applied; distinct = distinct hashes of (crash outcomes, file-operation trace of the clean execution).",
+                "rule": "Each scenario: a private scratch checkout on tmpfs created in a seeded file order (controls readdir order), start-state disk faults on generated files (deleted / 0-byte / prefix / content of another generated file / changed line + stale tail / extra file or directory inside generated directories / whole generated directory removed), 0-3 executions of the real generator killed at a file operation chosen inside the work that execution would perform (before the op, after truncate, after k bytes, after the op, or ENOSPC-style panic in the writer), then - faults have stopped - ONE fault-free execution (in a third of the sampled scenarios addressed through a symlink or a path with a '..' component instead of the canonical path) that must exit 0 and leave a tree byte-identical to the reference tree R (R = one run from the unchanged working tree, itself required to equal the working tree and to be a fixed point). Non-trivial: at least one disk fault actually applied; distinct = distinct hashes of (crash outcomes, file-operation trace of the clean execution).",
                 "samples": samples or [{"note": "no scenario executed: static obligations failed", "findings": c.findings[:3]}],
                 "runs_per_hour": int(runs / wall * 3600) if wall > 0 else 0,
                 "simulated_time_ticks": counters.get("file_ops_in_clean_executions", 0),
